@@ -1,17 +1,22 @@
 (* C12 — Hedge starts a bounded number of attempts and fails only when all have failed.
    Model: Model/Hedge.v (poll-granular model of Hedge::call / execute_with_hedging over a
    tokio mpsc channel, spawned attempt tasks, time::sleep and a biased select!, with an inner
-   service that may apply back-pressure to its clones).
+   service that may apply back-pressure to its clones and whose clones may fail readiness).
    Every theorem is quantified over every configuration with max_hedged_attempts >= 1
-   (fixed, zero, immediate and per-attempt delays; clones ready at once or only when the
-   script says so), over every list of events — polls of any of the concurrent hedged calls
-   in any order, cancellations, clock advances, inner completions with ok / error / panic at
-   any instant, before or after the call is made (never completed = no Complete event),
-   clones becoming ready at any instant, in any order, or never — and over every call index i.
+   (fixed, zero, immediate and per-attempt delays of any size — Duration::MAX is the delay
+   10^18 ms, a microsecond delay is its value rounded up to whole milliseconds,
+   C12_delay_rounding; clones ready at once or only when the script says so), over every list
+   of events — polls of any of the concurrent hedged calls in any order, cancellations, clock
+   advances, inner completions with ok / error / panic at any instant, before or after the call
+   is made (never completed = no Complete event), clones becoming ready, or starting to fail
+   readiness, at any instant, in any order, or never — and over every call index i.
+   The hypothesis 1 <= maxa c holds for the configuration of every script (C12_script_cfg).
    Vocabulary (Model/Hedge.v, Proof/Hedge.v): for the call x = calls s i,
      launch x  : instant at which attempt task k ran for the first time, at position k (the
                  primary: its inner call; a hedge: its clone is asked for readiness);
      waiting x : hedge tasks suspended until their clone is ready;  rdy x k : clone k is ready;
+     rerr x k  : poll_ready of clone k fails;  rfl x : hedge tasks whose clone failed readiness
+                 (they gave up without an inner call; their error rval i k was sent instead);
      starts x  : the inner calls actually made, in call order: (attempt task, instant);
      t0 x      : instant of the first poll;  dline x : deadline of the armed hedge timer;
      queue x   : contents of the result channel (attempt task, is_ok, value), FIFO;
@@ -64,27 +69,53 @@ Theorem C12_spacing :
 Proof. exact spacing. Qed.
 Print Assumptions C12_spacing.
 
-(* Who waits: every launched attempt either waits for its clone or has made exactly one
-   inner call; a waiting attempt is a hedge whose clone is not ready. Without back-pressure
-   nobody ever waits and the inner calls are made in attempt order at the launch instants
-   (so C12_spacing speaks about the inner-call instants themselves). *)
+(* Who waits, who gave up: every launched attempt either waits for its clone, or has failed
+   readiness, or has made exactly one inner call; a waiting attempt is a hedge whose clone is
+   neither ready nor failing. Without back-pressure nobody ever waits and every inner call is made
+   at the launch instant of its attempt (so C12_spacing speaks about the inner-call instants
+   themselves, see C12_start_spacing); if moreover no clone failed readiness the inner calls are
+   made in attempt order, one per launched attempt.
+   (Statement changed with the model: readiness failures did not exist before; with rfl x = []
+   this is the former statement.) *)
 Theorem C12_readiness :
   forall (c : cfg) (evs : list ev) (i : nat), (1 <= maxa c)%nat ->
   Forall (fun s => let x := calls s i in
-     (length (starts x) + length (waiting x) = length (launch x))%nat /\
-     NoDup (map fst (starts x)) /\ NoDup (waiting x) /\
+     (length (starts x) + length (waiting x) + length (rfl x) = length (launch x))%nat /\
+     NoDup (map fst (starts x)) /\ NoDup (waiting x) /\ NoDup (rfl x) /\
      (forall k, In k (waiting x) ->
-        (1 <= k < length (launch x))%nat /\ rdy x k = false /\ ~ In k (map fst (starts x))) /\
-     (gated c = false -> waiting x = [] /\ length (starts x) = length (launch x) /\
-        forall n k s0, nth_error (starts x) n = Some (k, s0) -> k = n /\ s0 = nth n (launch x) 0))
+        (1 <= k < length (launch x))%nat /\ rdy x k = false /\ rerr x k = false /\
+        ~ In k (map fst (starts x)) /\ ~ In k (rfl x)) /\
+     (forall k, In k (rfl x) -> (1 <= k < length (launch x))%nat /\ ~ In k (map fst (starts x))) /\
+     (gated c = false -> waiting x = [] /\
+        (length (starts x) + length (rfl x) = length (launch x))%nat /\
+        forall n k s0, nth_error (starts x) n = Some (k, s0) ->
+          s0 = nth k (launch x) 0 /\ (rfl x = [] -> k = n)))
   (states (step_st c) (init c) evs).
 Proof. exact readiness. Qed.
 Print Assumptions C12_readiness.
 
+(* Clause 2 read directly on the inner calls. Without back-pressure, in latency mode:
+   consecutive inner calls are made by attempts of increasing number, and the later one is made
+   no earlier than its configured delay after the earlier one was made; if no clone failed
+   readiness they are attempts n and n+1, i.e. start(n+1) >= start(n) + delay(n+1).
+   (With back-pressure the clause holds for the launch instants, C12_spacing, and is false for
+   the inner-call instants: two clones readied together start together.) *)
+Theorem C12_start_spacing :
+  forall (c : cfg) (evs : list ev) (i : nat), (1 <= maxa c)%nat ->
+  gated c = false -> latency_mode c = true ->
+  Forall (fun s => let x := calls s i in
+     forall n k1 s1 k2 s2, nth_error (starts x) n = Some (k1, s1) ->
+       nth_error (starts x) (S n) = Some (k2, s2) ->
+       (k1 < k2)%nat /\ s1 + delay c k2 <= s2 /\ (rfl x = [] -> k1 = n /\ k2 = S n))
+  (states (step_st c) (init c) evs).
+Proof. exact start_spacing. Qed.
+Print Assumptions C12_start_spacing.
+
 (* ... with equality under prompt polling: a poll at or after the timer's deadline that does
    not resolve the call launches the next attempt at the instant of that poll — polled exactly
    at the deadline (now s = dline x) that is launch(n) + delay(n+1) by C12_spacing — and if
-   that attempt's clone is ready its inner call is made at that same instant. *)
+   that attempt's clone is ready (and does not fail readiness) its inner call is made at that
+   same instant. *)
 Theorem C12_spacing_prompt :
   forall (c : cfg) (evs : list ev) (i : nat), (1 <= maxa c)%nat ->
   let s := fold_left (step_st c) evs (init c) in
@@ -93,7 +124,8 @@ Theorem C12_spacing_prompt :
   r (snd (step c s (Poll i))) = 0 ->
   let x' := calls (step_st c s (Poll i)) i in
   (length (launch x) < length (launch x'))%nat /\ nth (length (launch x)) (launch x') 0 = now s /\
-  (rdy x (length (launch x)) = true -> In (length (launch x), now s) (starts x')).
+  (rdy x (length (launch x)) = true -> rerr x (length (launch x)) = false ->
+   In (length (launch x), now s) (starts x')).
 Proof. exact spacing_prompt. Qed.
 Print Assumptions C12_spacing_prompt.
 
@@ -105,6 +137,18 @@ Theorem C12_ready_starts :
   In (k, now s) (starts (calls (step_st c s (Ready i k)) i)).
 Proof. exact ready_starts. Qed.
 Print Assumptions C12_ready_starts.
+
+(* a waiting attempt whose clone starts failing readiness gives up at that instant: it never
+   makes an inner call; while the call is unresolved its error is delivered to the call future *)
+Theorem C12_readyerr_fails :
+  forall (c : cfg) (evs : list ev) (i k : nat), (1 <= maxa c)%nat ->
+  let s := fold_left (step_st c) evs (init c) in
+  In k (waiting (calls s i)) ->
+  let x' := calls (step_st c s (ReadyErr i k)) i in
+  In k (rfl x') /\ starts x' = starts (calls s i) /\ ~ In k (waiting x') /\
+  (pending (calls s i) -> In ((k, false, rval i k), now s) (dlog x')).
+Proof. exact readyerr_fails. Qed.
+Print Assumptions C12_readyerr_fails.
 
 (* A poll of an unresolved call returns Ok exactly when a success is queued, and then with
    the first queued success — whatever else is going on: a timer that is due in the same poll
@@ -139,21 +183,28 @@ Theorem C12_ok_is_earliest_success :
 Proof. exact ok_is_earliest. Qed.
 Print Assumptions C12_ok_is_earliest_success.
 
-(* AllAttemptsFailed e at instant tau  ==>  max_hedged_attempts attempts were launched, every
-   one of them has made its inner call (none is still waiting for readiness) and every inner
-   call has finished without success: its error was delivered by tau, or (the only other
-   possibility) its task panicked. In latency mode every attempt has delivered an error and e
-   is the primary's error. In parallel mode and for a single attempt e is the first error
-   received (for a single attempt that is the primary's). *)
+(* AllAttemptsFailed e at instant tau  ==>  max_hedged_attempts attempts were launched; none is
+   still waiting to be started: every attempt k < max has made its inner call or its clone has
+   failed readiness (the only case in which an attempt "that can be started" makes no inner
+   call); every inner call made has finished without success: its error was delivered by tau,
+   or (the only other possibility) its task panicked; every readiness failure was delivered by
+   tau. In latency mode every inner call has delivered an error and e is the primary's error. In
+   parallel mode and for a single attempt e is the first error received (for a single attempt
+   that is the primary's). What e is, is a fact about this implementation, not part of C12.
+   (Statement changed with the model: `length (starts x) = maxa c` became
+   `length (starts x) + length (rfl x) = maxa c`, the inner calls are those below
+   `length (starts x)`; with rfl x = [] this is the former statement.) *)
 Theorem C12_all_failed_only_if :
   forall (c : cfg) (evs : list ev) (i : nat), (1 <= maxa c)%nat ->
   Forall (fun s => let x := calls s i in
      forall e tau, res x = Some (3, e, tau) ->
-       length (launch x) = maxa c /\ length (starts x) = maxa c /\
-       (forall n, (n < maxa c)%nat -> exists o, gate x n = Some o /\ o <> OOk /\
+       length (launch x) = maxa c /\ (length (starts x) + length (rfl x) = maxa c)%nat /\ waiting x = [] /\
+       (forall k, (k < maxa c)%nat -> In k (map fst (starts x)) \/ In k (rfl x)) /\
+       (forall n, (n < length (starts x))%nat -> exists o, gate x n = Some o /\ o <> OOk /\
            (o = OErr -> exists k tk, In ((k, false, val i n), tk) (dlog x) /\ tk <= tau)) /\
+       (forall k, In k (rfl x) -> exists tk, In ((k, false, rval i k), tk) (dlog x) /\ tk <= tau) /\
        (latency_mode c = true -> (1 < maxa c)%nat ->
-           e = val i 0 /\ forall n, (n < maxa c)%nat -> gate x n = Some OErr) /\
+           e = val i 0 /\ forall n, (n < length (starts x))%nat -> gate x n = Some OErr) /\
        (latency_mode c = false \/ maxa c = 1%nat ->
            exists k tk rest, dlog x = ((k, false, e), tk) :: rest) /\
        (maxa c = 1%nat -> e = val i 0))
@@ -161,10 +212,24 @@ Theorem C12_all_failed_only_if :
 Proof. exact all_failed_only_if. Qed.
 Print Assumptions C12_all_failed_only_if.
 
+(* The converse in the timer loop (not part of C12, which only says "only when"): once
+   max_hedged_attempts messages have been delivered and all of them are errors, the next poll
+   reports AllAttemptsFailed. *)
+Theorem C12_all_failed_reported :
+  forall (c : cfg) (evs : list ev) (i : nat), (1 <= maxa c)%nat ->
+  let s := fold_left (step_st c) evs (init c) in
+  let x := calls s i in
+  ph x = Latency -> Forall (fun m => it_ok m = false) (map fst (dlog x)) ->
+  (maxa c <= length (dlog x))%nat ->
+  r (snd (step c s (Poll i))) = 3.
+Proof. exact all_failed_reported. Qed.
+Print Assumptions C12_all_failed_reported.
+
 (* Every result is accounted for: the log of delivered messages is exactly what the future
-   has taken followed by what is still queued; each attempt delivers at most once, only
-   after it made its inner call, with that call's scripted outcome and value; while the call
-   is unresolved every inner call that has finished without panicking has delivered; what
+   has taken followed by what is still queued; each attempt delivers at most once: either
+   after it made its inner call, with that call's scripted outcome and value, or when its clone
+   failed readiness, with that error; while the call is unresolved every inner call that has
+   finished without panicking has delivered, and so has every readiness failure; what
    was taken while unresolved were errors only; an unseen message has woken the future, and
    so has the channel closing in the final loop. *)
 Theorem C12_no_result_lost :
@@ -173,13 +238,29 @@ Theorem C12_no_result_lost :
      map fst (dlog x) = cons x ++ queue x /\
      NoDup (map att (dlog x)) /\
      (forall m tau, In (m, tau) (dlog x) ->
-        exists n s0, nth_error (starts x) n = Some (it_att m, s0) /\
-                     gate x n = Some (out_of (it_ok m)) /\ it_val m = val i n /\ s0 <= tau <= now s) /\
+        (exists n s0, nth_error (starts x) n = Some (it_att m, s0) /\
+                      gate x n = Some (out_of (it_ok m)) /\ it_val m = val i n /\ s0 <= tau <= now s) \/
+        (In (it_att m) (rfl x) /\ it_ok m = false /\ it_val m = rval i (it_att m) /\
+         nth (it_att m) (launch x) 0 <= tau <= now s)) /\
      (pending x -> forall n k s0 o, nth_error (starts x) n = Some (k, s0) -> gate x n = Some o ->
         o <> OPanic -> In k (map att (dlog x))) /\
+     (pending x -> forall k, In k (rfl x) -> In k (map att (dlog x))) /\
      (pending x -> Forall (fun m => it_ok m = false) (cons x)) /\
      (pending x -> queue x <> [] -> woken x = true) /\
      (ph x = Drain -> closed x = true -> woken x = true))
   (states (step_st c) (init c) evs).
 Proof. exact no_result_lost. Qed.
 Print Assumptions C12_no_result_lost.
+
+(* The scripts: the configuration of every script has max_hedged_attempts >= 1 (the only
+   hypothesis above); a delay given in microseconds is the model's millisecond delay up to
+   rounding up (what a millisecond timer does on whole-millisecond instants), so "no earlier
+   than delay c k" implies "no earlier than the configured delay". *)
+Theorem C12_script_cfg : forall sc : list Z, (1 <= maxa (cfg_of sc))%nat.
+Proof. exact cfg_of_maxa. Qed.
+Print Assumptions C12_script_cfg.
+
+Theorem C12_delay_rounding :
+  forall d : Z, 0 <= d < dmax -> d <= 1000 * ms_of true d < d + 1000 /\ ms_of false d = d.
+Proof. exact ms_of_round. Qed.
+Print Assumptions C12_delay_rounding.
